@@ -2762,7 +2762,11 @@ func (p *parser) parseRHSOrTypeEx(allowTuple bool) (x ast.Expr, isTuple bool) {
 }
 
 func (p *parser) parseRHSOrType() ast.Expr {
-	x, _ := p.parseRHSOrTypeEx(false)
+	x, isTuple := p.parseRHSOrTypeEx(false)
+	if isTuple { // already reported (msgTupleNotSupported): don't let the internal tupleExpr escape
+		t := x.(*tupleExpr)
+		return &ast.BadExpr{From: t.opening, To: t.closing}
+	}
 	return x
 }
 
